@@ -699,7 +699,18 @@ def replay(path: str) -> int:
         print(f"  sample {list(s)}: slice answer {o.reshape(-1)[:4].tolist()}  batched row {row}")
     verdict, detail = judge(ss, out, sl)
     print("verdict:", verdict, detail or "")
-    return 1 if verdict in ("value", "shape") else 0
+    bad_claim = False
+    if obj.get("verdict") == "sample_shape" and math.prod(ss) > 1:
+        try:
+            claims = case.claims(v) if getattr(case, "claims", None) else [(case.name, tuple(case.mk(v).sample_shape))]
+        except Exception as e:
+            claims = [(case.name, f"raise {type(e).__name__}")]
+        want = obj["detail"].get("component")
+        for cname, cl in claims:
+            if want in (None, cname):
+                print(f"{cname} reports sample shape {list(cl) if isinstance(cl, tuple) else cl}; its parameters carry {list(ss)}")
+                bad_claim = bad_claim or (isinstance(cl, tuple) and cl != ss and bool(B))
+    return 1 if verdict in ("value", "shape") or bad_claim else 0
 
 
 # ----------------------------------------------------------------------------- variational objectives
@@ -1174,13 +1185,19 @@ def explore_likelihood_terms(ck: Check, found):
                 pc = ck.extra.setdefault("per_class", {}).setdefault(case.name, {})
                 pc[verdict] = pc.get(verdict, 0) + 1
                 size = (len(ss), math.prod(ss))
-                if wrong_claim:
-                    _record(found, ("sample_shape:Distribution", frozenset(["parameter"]), "wrong-sample-shape"), size, case.name,
+                if wrong_claim:  # (a joint returning a wrong number is the preferred witness: this one sorts after it)
+                    _record(found, ("sample_shape:Distribution", frozenset(["parameter"]), "wrong-sample-shape"), size + (1,), case.name,
                             replay_dict(case.name, orc, B, ss, "sample_shape",
                                         {"component": case.name, "reported_sample_shape": list(claimed) if isinstance(claimed, tuple) else claimed,
                                          "actual_sample_shape": list(ss), "joint_verdict": "not-in-a-joint", "joint_detail": None}), ss)
                 if verdict in ("value", "shape"):
-                    culprit, _Bc = blame_component(case, orc, B, ss)
+                    culprit = None
+                    try:  # the joint cases here share one parameter set: the term is component 0
+                        cname, cl = case.claims(orc.vals.batched(B, ss))[0]
+                        if cl != tuple(ss):
+                            culprit = (cname, cl)
+                    except Exception:
+                        pass
                     if culprit is not None and culprit[0].startswith("LikelihoodTerm"):
                         _record(found, ("sample_shape:Distribution", frozenset(["parameter"]), "wrong-sample-shape"), size, case.name,
                                 replay_dict(case.name, orc, B, ss, "sample_shape",
